@@ -76,9 +76,14 @@ func (s *Service) HandleHeadEvent(event *apiv1.Event) {
 
 	s.fastTrackJobs(ctx, data.Slot)
 
-	// Remove old subscriptions if present.
+	// Remove old subscriptions if present.  All epochs before the previous one go, not only
+	// epoch-2, which would stay for ever if no head event arrived during this epoch.
 	s.subscriptionInfosMutex.Lock()
-	delete(s.subscriptionInfos, s.chainTimeService.SlotToEpoch(data.Slot)-2)
+	for subscriptionEpoch := range s.subscriptionInfos {
+		if subscriptionEpoch+1 < epoch {
+			delete(s.subscriptionInfos, subscriptionEpoch)
+		}
+	}
 	s.subscriptionInfosMutex.Unlock()
 
 	// Only verify on current slot.
